@@ -17,7 +17,8 @@ SignWith(c, e, q, k, lowS) ==
         flip == lowS /\ ~IsLowS(c, s0)
         s  == IF flip THEN BSub(c.n, s0) ELSE s0
         odd == IF BIsOdd(K.y) THEN 1 ELSE 0
-        id0 == odd + (IF BGe(K.x, c.n) THEN 2 ELSE 0)
+        \* (SEC 1 4.1.6: x_K = r + j n with j up to the cofactor; j is 0 or 1 on a curve of cofactor 1 and reaches 3 on secp112r2 / secp128r2)
+        id0 == odd + 2 * BToInt(BDiv(K.x, c.n))
         id == IF flip THEN (IF odd = 1 THEN id0 - 1 ELSE id0 + 1) ELSE id0
     IN [ok |-> ~K.inf /\ ~BIsZero(r) /\ ~BIsZero(s0), r |-> r, s |-> s, id |-> id]
 
